@@ -999,6 +999,15 @@ impl Server {
         if errored {
             return;
         }
+        // an exchange that stayed at the application for as long as the cache
+        // expiry: what the handler remembered of the request (the client's
+        // size wish) may be gone by the time the response comes through.  C10
+        // quantifies over budgets, overheads and client sizes, not over an
+        // expiry shorter than the application's processing time.
+        if arr.time_done.saturating_sub(arr.time) >= self.cfg.expiry_ns {
+            stats.hit("c10.out-of-premise.expiry-inside-exchange");
+            return;
+        }
         let app_own_b2 = arr.app.as_ref().map_or(false, |_| {
             // the application set its own Block2 iff the handler left it
             // alone; tracked through the resource spec
